@@ -143,7 +143,16 @@ class CeluPlugin(PrimitiveLeafPlugin):
         ) -> Callable[..., ArrayLike]:
             if orig is None:
                 raise RuntimeError("Original jax.nn.celu not found")
-            return lambda *args, **kwargs: cls._PRIM.bind(*args, **kwargs)
+
+            def _bind(x: ArrayLike, *args: object, **kwargs: object) -> ArrayLike:
+                # jax.nn.celu(x, alpha): the parameter may be given positionally
+                if args:
+                    if len(args) > 1 or "alpha" in kwargs:
+                        raise TypeError("celu() got too many or duplicate arguments")
+                    kwargs = dict(kwargs, alpha=args[0])
+                return cls._PRIM.bind(x, **kwargs)
+
+            return _bind
 
         return [
             AssignSpec("jax.nn", "celu_p", cls._PRIM, delete_if_missing=True),
